@@ -13,6 +13,7 @@ import (
 	"go/ast"
 	"go/token"
 	"go/types"
+	"strconv"
 	"strings"
 )
 
@@ -1284,4 +1285,98 @@ func (w *World) litRunsInBracketHelper(f *Func, lit *ast.FuncLit) bool {
 		return !found
 	})
 	return found
+}
+
+// restoreTailIndexLoops: `for _, v := range S[lo:] { B }` in a function whose pinned version does not range over
+// that sub-slice is the index loop `for i := lo; i < len(S); i++ { v := S[i]; B }` (S and v not assigned in B):
+// the rules know the tail of a sequence as an index range.
+func (w *World) restoreTailIndexLoops(overlay map[string][]byte) (map[string][]byte, []string) {
+	edits := map[string][]textEdit{}
+	var done []string
+	for _, name := range w.SortedFuncNames() {
+		f := w.Funcs[name]
+		if _, pinned := pinnedFuncs[name]; !pinned || f.Decl.Body == nil || w.vendoredFunc(f) {
+			continue
+		}
+		pinnedR := map[string]bool{}
+		for _, r := range strings.Split(pinnedRanges[name], " | ") {
+			pinnedR[r] = true
+		}
+		info := f.Pkg.TypesInfo
+		tf, fname := w.fileOf(f.Decl.Pos())
+		src := readSource(fname, overlay)
+		text := func(n ast.Node) string { return string(src[tf.Offset(n.Pos()):tf.Offset(n.End())]) }
+		taken := w.takenNames(f)
+		n := 0
+		ast.Inspect(f.Decl.Body, func(x ast.Node) bool {
+			rs, ok := x.(*ast.RangeStmt)
+			if !ok || rs.Tok != token.DEFINE || rs.Value == nil || n > 0 {
+				return true
+			}
+			if k, ok := rs.Key.(*ast.Ident); !ok || k.Name != "_" {
+				return true
+			}
+			v, ok := rs.Value.(*ast.Ident)
+			if !ok || v.Name == "_" {
+				return true
+			}
+			se, ok := ast.Unparen(rs.X).(*ast.SliceExpr)
+			if !ok || se.Low == nil || se.High != nil || se.Max != nil || pinnedR[exprKey(rs.X)] || !pureExpr(se.X) || !w.pureExpr(f, se.Low) {
+				return true
+			}
+			if _, isSlice := info.TypeOf(se.X).Underlying().(*types.Slice); !isSlice {
+				return true
+			}
+			bad := false
+			vobj := info.Defs[v]
+			ast.Inspect(rs.Body, func(y ast.Node) bool {
+				switch z := y.(type) {
+				case *ast.AssignStmt:
+					for _, l := range z.Lhs {
+						if exprKey(l) == exprKey(se.X) {
+							bad = true
+						}
+						if id, ok := ast.Unparen(l).(*ast.Ident); ok && info.ObjectOf(id) == vobj {
+							bad = true
+						}
+					}
+				case *ast.UnaryExpr:
+					if z.Op == token.AND {
+						if id, ok := ast.Unparen(z.X).(*ast.Ident); ok && info.ObjectOf(id) == vobj {
+							bad = true
+						}
+					}
+				case *ast.FuncLit:
+					if mentions(info, z, vobj) {
+						bad = true
+					}
+				}
+				return true
+			})
+			if bad {
+				return true
+			}
+			idx := "i"
+			for k := 0; taken[idx]; k++ {
+				idx = "i" + strconv.Itoa(k)
+			}
+			taken[idx] = true
+			s := text(se.X)
+			hdr := "for " + idx + " := " + text(se.Low) + "; " + idx + " < len(" + s + "); " + idx + "++ {\n" + v.Name + " := " + s + "[" + idx + "]\n"
+			edits[fname] = append(edits[fname], textEdit{tf.Offset(rs.Pos()), tf.Offset(rs.Body.Lbrace) + 1, hdr})
+			n++
+			return true
+		})
+		if n > 0 {
+			done = append(done, name)
+		}
+	}
+	if len(done) == 0 {
+		return nil, nil
+	}
+	out := applyEdits(w, overlay, edits)
+	if out == nil {
+		return nil, nil
+	}
+	return out, done
 }
